@@ -85,9 +85,15 @@ Definition prefer_list {A} (l single : list A) : list A := match l with [] => si
 
 (* ---- client against a scripted server ---------------------------------------- *)
 
+(* how an authentication sub-protocol run against the scripted peer ends *)
+Inductive xres :=
+| XOk        (* the exchange completes successfully *)
+| XFail      (* the exchange completes with a failure; the connection stays usable *)
+| XAbort.    (* the peer goes away *)
+
 Record reply := mkReply {
   rp_bit : Z;          (* the method bitmask the server answers *)
-  rp_ack : bool;       (* CLAIMTOBE: acknowledge (1) or reject (0) the claim *)
+  rp_res : xres;       (* how the selected method's exchange ends (e.g. CLAIMTOBE: claim acknowledged / rejected) *)
   rp_haskey_ok : bool  (* after a successful exchange: a well-formed key-exchange message follows *)
 }.
 
@@ -118,14 +124,15 @@ Fixpoint client_loop (cms : list meth) (replies : list reply) (avail : Z) (ran :
                 | None => client_loop cms rest (Z.land avail (Z.lnot r)) ran
                 | Some mc =>
                     if negb (mem mc cms) || (Z.land r avail =? 0) then LErr ran   (* not offered *)
-                    else match mc with
-                         | mCTB =>
-                             if rp_ack rp then
-                               if rp_haskey_ok rp then LDone mCTB (ran ++ [(mCTB, true)])
-                               else LErr (ran ++ [(mCTB, true)])
-                             else client_loop cms rest (Z.land avail (Z.lnot (bit mCTB))) (ran ++ [(mCTB, false)])
-                         | mPW => client_loop cms rest (Z.land avail (Z.lnot (bit mPW))) ran
-                         | _ => LErr ran           (* a method the scripted peer does not serve: it goes away *)
+                    else if meth_eqb mc mPW then
+                      (* the PASSWORD stub fails locally, nothing on the wire *)
+                      client_loop cms rest (Z.land avail (Z.lnot (bit mPW))) ran
+                    else match rp_res rp with
+                         | XOk =>
+                             if rp_haskey_ok rp then LDone mc (ran ++ [(mc, true)])
+                             else LErr (ran ++ [(mc, true)])
+                         | XFail => client_loop cms rest (Z.land avail (Z.lnot (bit mc))) (ran ++ [(mc, false)])
+                         | XAbort => LErr ran
                          end
                 end
        end.
@@ -173,9 +180,9 @@ Definition client_hs (c : cfg) (s : sscript) : outcome :=
 
 (* ---- server against a scripted client ----------------------------------------- *)
 
-Inductive claim := ClaimOk | ClaimFail | ClaimAbort.   (* CLAIMTOBE client behaviour *)
-
-Record mstep := mkM { m_mask : Z; m_claim : claim }.
+(* [m_res]: how the exchange of the method the server selects ends (e.g.
+   CLAIMTOBE: the client sends its claim / an error indicator / goes away) *)
+Record mstep := mkM { m_mask : Z; m_res : xres }.
 
 Record cscript := mkC {
   q_cmd_ok : bool;                    (* leading command integer is DC_AUTHENTICATE *)
@@ -194,16 +201,12 @@ Fixpoint server_loop (sm : list meth) (masks : list mstep) (ran : list (meth * b
       else match srv_select sm (m_mask st) with
            | None => server_loop sm rest ran            (* answers 0, waits for the next bitmask *)
            | Some ms =>
-               match ms with
-               | mCTB =>
-                   match m_claim st with
-                   | ClaimOk => LDone mCTB (ran ++ [(mCTB, true)])
-                   | ClaimFail => server_loop sm rest (ran ++ [(mCTB, false)])
-                   | ClaimAbort => LErr ran
-                   end
-               | mPW => server_loop sm rest ran
-               | _ => LErr ran                          (* a method the scripted peer does not speak *)
-               end
+               if meth_eqb ms mPW then server_loop sm rest ran    (* stub: fails locally *)
+               else match m_res st with
+                    | XOk => LDone ms (ran ++ [(ms, true)])
+                    | XFail => server_loop sm rest (ran ++ [(ms, false)])
+                    | XAbort => LErr ran
+                    end
            end
   end.
 
